@@ -468,6 +468,8 @@ func stringsIntrinsic(name string, fn *ssa.Function) intrinsicFn {
 			return inf
 		}
 	// ---- net/http.Header as a plain map with canonical concrete keys
+	case "net/http.CanonicalHeaderKey", "net/textproto.CanonicalMIMEHeaderKey":
+		return func(x *Exec, _ *ssa.Function, a []Value) Value { return canonHeader(x, a[0]) }
 	case "(net/http.Header).Get":
 		return func(x *Exec, _ *ssa.Function, a []Value) Value {
 			m, _ := a[0].(*MapV)
